@@ -2,7 +2,7 @@
    Only statements, `exact`, and Print Assumptions.  Model: Model/Pipeline.v (control flow of
    Request.Send/Do/do, Client.roundTrip, parseResponseBody, Response.ResultState/ToBytes, digest
    re-send; every user-supplied stage is an oracle value of the program). *)
-From ReqV Require Import Lib.Bytes Model.Pipeline Proofs.PipelineProofs.
+From ReqV Require Import Lib.Bytes Model.Pipeline Model.Entry Proofs.PipelineProofs Proofs.EntryProofs.
 Open Scope Z_scope.
 
 (* ---- classification: every status code - indeed every integer - falls in exactly one state ---- *)
@@ -313,6 +313,29 @@ Theorem C18_download_streams_when_unread : forall cfg b r,
   handle_download cfg b r = match b_read b with Some e => Some e | None => b_write b end.
 Proof. exact download_streams_when_unread. Qed.
 Print Assumptions C18_download_streams_when_unread.
+
+(* ---- every verb-style entry point: the table regenerated from request.go / request_wrapper.go ----
+   (Get/Post/Put/Patch/Delete/Head/Options, their Must* forms, and the package-level functions on
+   the default client).  A new entry point, or one whose body no longer has a modelled shape, fails
+   the translation; a changed table re-checks these. *)
+Theorem C18_entry_table_complete : table_complete entry_table = true.
+Proof. exact entry_table_complete. Qed.
+Print Assumptions C18_entry_table_complete.
+
+Theorem C18_entry_points_contract : forall name pkg sh k, In (name, pkg, sh) entry_table ->
+  kind_of entry_table name pkg = Some k ->
+  forall fl cfg atts,
+  let p := mkProg k cfg atts in
+  k <> EDo /\
+  (forall ro e ls h, run fl p = Returned ro e ls h -> ro <> None /\ e = resp_err ro /\ (k = EMust -> e = None)) /\
+  hooks_of (run fl p) = (if ends_in_error fl p && is_some (c_onerror cfg) then 1 else 0)%nat.
+Proof. exact entry_points_contract. Qed.
+Print Assumptions C18_entry_points_contract.
+
+Theorem C18_entry_kind_verb : forall name pkg sh, In (name, pkg, sh) entry_table ->
+  kind_of entry_table name pkg = Some ESend \/ kind_of entry_table name pkg = Some EMust.
+Proof. exact entry_kind_verb. Qed.
+Print Assumptions C18_entry_kind_verb.
 
 (* ---- the pinned code violates the contract; witnesses kept checked ---- *)
 Theorem C18_pinned_digest_refuted :
